@@ -389,7 +389,10 @@ class Query:
                     self.verdict = "fail"
                     self.failed = [slim_result(r) for r in real]
                 else:
-                    self.verdict = "inconclusive"
+                    # either the stated bound is too small or the loop really does not
+                    # terminate on this input: the driver decides by replaying the input
+                    self.verdict = "unwind"
+                    self.failed = [slim_result(r) for r in unw]
                     self.note = "unwinding assertion failed: " + ", ".join(
                         r.get("property", "?") for r in unw)[:400]
         if self.verdict in ("pass", "fail") and use_cache is not None:
